@@ -101,7 +101,7 @@ def check_structure(nodes, start, iterations, count_reported, dist, blocked, tol
     if len(roots) != 1 or not same(roots[0]["pos"], start):
         bad("root", {"parentless": [n["pos"] for n in roots], "start": start})
     for n in roots:
-        if abs(n["cost"]) > tol:
+        if not (abs(n["cost"]) <= tol):
             bad("cost", {"node": n["pos"], "cost": n["cost"], "expected": 0.0}, "root cost")
     for n in nodes:
         ch = n["chain"]
@@ -125,7 +125,7 @@ def check_structure(nodes, start, iterations, count_reported, dist, blocked, tol
             t = nodes[k]
             tpar = t["chain"][0][0] if t["chain"] else None
             cpar = ch[depth + 1][0] if depth + 1 < len(ch) else None
-            if abs(t["cost"] - pcost) > tol or (tpar is None) != (cpar is None) or (tpar is not None and not same(tpar, cpar)):
+            if not (abs(t["cost"] - pcost) <= tol) or (tpar is None) != (cpar is None) or (tpar is not None and not same(tpar, cpar)):
                 bad("parent_copy", {"node": n["pos"], "ancestor": ppos, "copy_cost": pcost, "tree_cost": t["cost"],
                                     "copy_parent": cpar, "tree_parent": tpar},
                     "the ancestor reached through parent links disagrees with the tree's node at that position")
